@@ -1138,3 +1138,7 @@ mod tests {
         assert_eq!(segment.to_string(), expected);
     }
 }
+
+#[cfg(kani)]
+#[path = "/verif/kani/sciparse/c18_signed.rs"]
+pub(crate) mod verif_c18_signed;
